@@ -98,6 +98,10 @@ struct Sched
   std::vector<std::uint64_t> change_points;
   long lowest_priority = 0;
   bool abandoned = false;
+  int spin_fiber = -1;
+  void const *spin_obj = nullptr;
+  unsigned spin_count = 0;
+  bool force_other = false; // the next choice must not be the running fiber (spin-wait demotion)
 };
 
 Sched g;
@@ -168,6 +172,18 @@ int pick_next()
   if (n == 1)
     return runnable[0];
   unsigned choice = 0;
+  if (g.force_other && g.cfg.policy != sim::sched::Policy::replay)
+  {
+    // spin-wait demotion: the lowest-numbered runnable fiber other than the running one
+    g.force_other = false;
+    for (unsigned k = 0; k < n; ++k)
+      if (runnable[k] != g.cur)
+      {
+        g.res.choices.push_back(k);
+        return runnable[k];
+      }
+  }
+  g.force_other = false;
   switch (g.cfg.policy)
   {
   case sim::sched::Policy::random:
@@ -222,6 +238,23 @@ void sched_point(unsigned kind, void const *obj)
     return;
   ++g.res.steps;
   hash_event(static_cast<unsigned>(g.cur), kind, obj);
+  // a fiber that keeps hitting the same object (a spin-wait) while nobody else gets to run is
+  // demoted, so that a correct spin lock cannot livelock the one-thread simulator
+  if (g.spin_fiber == g.cur && g.spin_obj == obj)
+  {
+    if (++g.spin_count >= 24)
+    {
+      g.spin_count = 0;
+      g.fibers[static_cast<std::size_t>(g.cur)].priority = --g.lowest_priority;
+      g.force_other = true;
+    }
+  }
+  else
+  {
+    g.spin_fiber = g.cur;
+    g.spin_obj = obj;
+    g.spin_count = 0;
+  }
   if (g.res.steps > g.cfg.max_steps)
   {
     g.res.step_bound = true;
@@ -294,6 +327,13 @@ void trampoline()
   g.fibers[static_cast<std::size_t>(me)].joined = true;
   switch_to(-1, 0);
   std::abort();
+}
+
+// more locks held at once than the tables can record: no verdict from this run (infrastructure)
+[[noreturn]] void table_overflow()
+{
+  g.res.table_overflow = true;
+  abandon("scheduler table overflow");
 }
 
 int owner_of(pthread_mutex_t *m)
@@ -372,6 +412,10 @@ Result run(std::vector<std::function<void()>> const &bodies, Config const &cfg)
   g.owners.clear();
   g.objects.clear();
   g.abandoned = false;
+  g.spin_fiber = -1;
+  g.spin_obj = nullptr;
+  g.spin_count = 0;
+  g.force_other = false;
   g.fibers.clear();
   g.fibers.resize(bodies.size());
   // Everything the scheduler touches while fibers run is allocated here, on the main context:
@@ -518,8 +562,9 @@ int __wrap_pthread_mutex_lock(pthread_mutex_t *m)
         ++o.depth;
     return __real_pthread_mutex_lock(m);
   }
-  if (g.owners.size() < g.owners.capacity())
-    g.owners.push_back(Owner{m, g.cur, 1});
+  if (g.owners.size() >= g.owners.capacity())
+    table_overflow();
+  g.owners.push_back(Owner{m, g.cur, 1});
   ++g.fibers[static_cast<std::size_t>(g.cur)].held;
   return __real_pthread_mutex_lock(m);
 }
@@ -529,8 +574,20 @@ int __wrap_pthread_mutex_trylock(pthread_mutex_t *m)
   if (!g.active || g.cur < 0)
     return __real_pthread_mutex_trylock(m);
   sched_point(K_LOCK, m);
+  if (owner_of(m) == g.cur)
+  {
+    // recursive mutex re-locked by its owner (a plain mutex answers EBUSY by itself)
+    int const r = __real_pthread_mutex_trylock(m);
+    if (r == 0)
+      for (Owner &o : g.owners)
+        if (o.m == m)
+          ++o.depth;
+    return r;
+  }
   if (owner_of(m) >= 0)
     return 16; // EBUSY
+  if (g.owners.size() >= g.owners.capacity())
+    table_overflow();
   g.owners.push_back(Owner{m, g.cur, 1});
   ++g.fibers[static_cast<std::size_t>(g.cur)].held;
   return __real_pthread_mutex_trylock(m);
@@ -549,7 +606,10 @@ int __wrap_pthread_mutex_unlock(pthread_mutex_t *m)
         --g.owners[k].depth;
         return r;
       }
-      g.owners.erase(g.owners.begin() + static_cast<std::ptrdiff_t>(k));
+      // (swap with the last entry: vector::erase would call memmove, which the race detector
+      // intercepts even in this uninstrumented unit and attributes to the running fiber)
+      g.owners[k] = g.owners.back();
+      g.owners.pop_back();
       break;
     }
   if (g.fibers[static_cast<std::size_t>(g.cur)].held != 0)
@@ -572,6 +632,8 @@ RwOwner &rw_entry(pthread_rwlock_t *l)
   for (RwOwner &r : g.rwowners)
     if (r.l == l)
       return r;
+  if (g.rwowners.size() >= g.rwowners.capacity())
+    table_overflow();
   g.rwowners.push_back(RwOwner{l, -1, {}, 0});
   return g.rwowners.back();
 }
@@ -593,8 +655,9 @@ int __wrap_pthread_rwlock_rdlock(pthread_rwlock_t *l)
   while (rw_entry(l).writer >= 0)
     rw_park(l);
   RwOwner &r = rw_entry(l);
-  if (r.nreaders < 8)
-    r.readers[r.nreaders++] = g.cur;
+  if (r.nreaders >= 8)
+    table_overflow();
+  r.readers[r.nreaders++] = g.cur;
   ++g.fibers[static_cast<std::size_t>(g.cur)].held;
   return __real_pthread_rwlock_rdlock(l);
 }
@@ -664,69 +727,82 @@ int __wrap_pthread_rwlock_unlock(pthread_rwlock_t *l)
   return res;
 }
 
-// ThreadSanitizer's atomic entry points (every std::atomic access of instrumented code)
+// ThreadSanitizer's atomic entry points (every std::atomic access of instrumented code), all widths
 typedef unsigned char a8;
+typedef unsigned short a16;
 typedef unsigned int a32;
 typedef unsigned long a64;
-a8 __real___tsan_atomic8_load(const volatile a8 *, int);
-void __real___tsan_atomic8_store(volatile a8 *, a8, int);
-a32 __real___tsan_atomic32_load(const volatile a32 *, int);
-void __real___tsan_atomic32_store(volatile a32 *, a32, int);
-a32 __real___tsan_atomic32_exchange(volatile a32 *, a32, int);
-a32 __real___tsan_atomic32_fetch_add(volatile a32 *, a32, int);
-int __real___tsan_atomic32_compare_exchange_strong(volatile a32 *, a32 *, a32, int, int);
-int __real___tsan_atomic32_compare_exchange_weak(volatile a32 *, a32 *, a32, int, int);
-a64 __real___tsan_atomic64_load(const volatile a64 *, int);
-void __real___tsan_atomic64_store(volatile a64 *, a64, int);
 
-a8 __wrap___tsan_atomic8_load(const volatile a8 *a, int mo)
-{
-  sched_point(K_ATOMIC_LOAD, const_cast<a8 const *>(a));
-  return __real___tsan_atomic8_load(a, mo);
-}
-void __wrap___tsan_atomic8_store(volatile a8 *a, a8 v, int mo)
-{
-  sched_point(K_ATOMIC_STORE, const_cast<a8 const *>(a));
-  __real___tsan_atomic8_store(a, v, mo);
-}
-a32 __wrap___tsan_atomic32_load(const volatile a32 *a, int mo)
-{
-  sched_point(K_ATOMIC_LOAD, const_cast<a32 const *>(a));
-  return __real___tsan_atomic32_load(a, mo);
-}
-void __wrap___tsan_atomic32_store(volatile a32 *a, a32 v, int mo)
-{
-  sched_point(K_ATOMIC_STORE, const_cast<a32 const *>(a));
-  __real___tsan_atomic32_store(a, v, mo);
-}
-a32 __wrap___tsan_atomic32_exchange(volatile a32 *a, a32 v, int mo)
-{
-  sched_point(K_ATOMIC_RMW, const_cast<a32 const *>(a));
-  return __real___tsan_atomic32_exchange(a, v, mo);
-}
-a32 __wrap___tsan_atomic32_fetch_add(volatile a32 *a, a32 v, int mo)
-{
-  sched_point(K_ATOMIC_RMW, const_cast<a32 const *>(a));
-  return __real___tsan_atomic32_fetch_add(a, v, mo);
-}
-int __wrap___tsan_atomic32_compare_exchange_strong(volatile a32 *a, a32 *c, a32 v, int mo, int fmo)
-{
-  sched_point(K_ATOMIC_RMW, const_cast<a32 const *>(a));
-  return __real___tsan_atomic32_compare_exchange_strong(a, c, v, mo, fmo);
-}
-int __wrap___tsan_atomic32_compare_exchange_weak(volatile a32 *a, a32 *c, a32 v, int mo, int fmo)
-{
-  sched_point(K_ATOMIC_RMW, const_cast<a32 const *>(a));
-  return __real___tsan_atomic32_compare_exchange_weak(a, c, v, mo, fmo);
-}
-a64 __wrap___tsan_atomic64_load(const volatile a64 *a, int mo)
-{
-  sched_point(K_ATOMIC_LOAD, const_cast<a64 const *>(a));
-  return __real___tsan_atomic64_load(a, mo);
-}
-void __wrap___tsan_atomic64_store(volatile a64 *a, a64 v, int mo)
-{
-  sched_point(K_ATOMIC_STORE, const_cast<a64 const *>(a));
-  __real___tsan_atomic64_store(a, v, mo);
-}
+#define SIM_ATOMIC_WRAPPERS(T, N) \
+  T __real___tsan_atomic##N##_load(const volatile T *, int); \
+  void __real___tsan_atomic##N##_store(volatile T *, T, int); \
+  T __real___tsan_atomic##N##_exchange(volatile T *, T, int); \
+  T __real___tsan_atomic##N##_fetch_add(volatile T *, T, int); \
+  T __real___tsan_atomic##N##_fetch_sub(volatile T *, T, int); \
+  T __real___tsan_atomic##N##_fetch_and(volatile T *, T, int); \
+  T __real___tsan_atomic##N##_fetch_or(volatile T *, T, int); \
+  T __real___tsan_atomic##N##_fetch_xor(volatile T *, T, int); \
+  T __real___tsan_atomic##N##_fetch_nand(volatile T *, T, int); \
+  int __real___tsan_atomic##N##_compare_exchange_strong(volatile T *, T *, T, int, int); \
+  int __real___tsan_atomic##N##_compare_exchange_weak(volatile T *, T *, T, int, int); \
+  T __wrap___tsan_atomic##N##_load(const volatile T *a, int mo) \
+  { \
+    sched_point(K_ATOMIC_LOAD, const_cast<T const *>(a)); \
+    return __real___tsan_atomic##N##_load(a, mo); \
+  } \
+  void __wrap___tsan_atomic##N##_store(volatile T *a, T v, int mo) \
+  { \
+    sched_point(K_ATOMIC_STORE, const_cast<T const *>(a)); \
+    __real___tsan_atomic##N##_store(a, v, mo); \
+  } \
+  T __wrap___tsan_atomic##N##_exchange(volatile T *a, T v, int mo) \
+  { \
+    sched_point(K_ATOMIC_RMW, const_cast<T const *>(a)); \
+    return __real___tsan_atomic##N##_exchange(a, v, mo); \
+  } \
+  T __wrap___tsan_atomic##N##_fetch_add(volatile T *a, T v, int mo) \
+  { \
+    sched_point(K_ATOMIC_RMW, const_cast<T const *>(a)); \
+    return __real___tsan_atomic##N##_fetch_add(a, v, mo); \
+  } \
+  T __wrap___tsan_atomic##N##_fetch_sub(volatile T *a, T v, int mo) \
+  { \
+    sched_point(K_ATOMIC_RMW, const_cast<T const *>(a)); \
+    return __real___tsan_atomic##N##_fetch_sub(a, v, mo); \
+  } \
+  T __wrap___tsan_atomic##N##_fetch_and(volatile T *a, T v, int mo) \
+  { \
+    sched_point(K_ATOMIC_RMW, const_cast<T const *>(a)); \
+    return __real___tsan_atomic##N##_fetch_and(a, v, mo); \
+  } \
+  T __wrap___tsan_atomic##N##_fetch_or(volatile T *a, T v, int mo) \
+  { \
+    sched_point(K_ATOMIC_RMW, const_cast<T const *>(a)); \
+    return __real___tsan_atomic##N##_fetch_or(a, v, mo); \
+  } \
+  T __wrap___tsan_atomic##N##_fetch_xor(volatile T *a, T v, int mo) \
+  { \
+    sched_point(K_ATOMIC_RMW, const_cast<T const *>(a)); \
+    return __real___tsan_atomic##N##_fetch_xor(a, v, mo); \
+  } \
+  T __wrap___tsan_atomic##N##_fetch_nand(volatile T *a, T v, int mo) \
+  { \
+    sched_point(K_ATOMIC_RMW, const_cast<T const *>(a)); \
+    return __real___tsan_atomic##N##_fetch_nand(a, v, mo); \
+  } \
+  int __wrap___tsan_atomic##N##_compare_exchange_strong(volatile T *a, T *c, T v, int mo, int fmo) \
+  { \
+    sched_point(K_ATOMIC_RMW, const_cast<T const *>(a)); \
+    return __real___tsan_atomic##N##_compare_exchange_strong(a, c, v, mo, fmo); \
+  } \
+  int __wrap___tsan_atomic##N##_compare_exchange_weak(volatile T *a, T *c, T v, int mo, int fmo) \
+  { \
+    sched_point(K_ATOMIC_RMW, const_cast<T const *>(a)); \
+    return __real___tsan_atomic##N##_compare_exchange_weak(a, c, v, mo, fmo); \
+  }
+
+SIM_ATOMIC_WRAPPERS(a8, 8)
+SIM_ATOMIC_WRAPPERS(a16, 16)
+SIM_ATOMIC_WRAPPERS(a32, 32)
+SIM_ATOMIC_WRAPPERS(a64, 64)
 }
